@@ -167,6 +167,55 @@ def check_ids(a, b, how):
     return out
 
 
+CLASSES = ("Individual", "IndividualNSGAII", "IndividualEpsMOEA", "IndividualSwarm", "from_dict")
+
+
+def make_as(cls, v):
+    """A design point as one of the carrier classes the framework uses (loaded individuals are plain Individuals)."""
+    from artap.individual import Individual
+    if cls == "Individual":
+        return Individual(list(v))
+    if cls == "IndividualNSGAII":
+        from artap.algorithm_NSGAII import IndividualNSGAII
+        return IndividualNSGAII(list(v))
+    if cls == "IndividualEpsMOEA":
+        from artap.algorithm_genetic import IndividualEpsMOEA
+        return IndividualEpsMOEA(list(v))
+    if cls == "IndividualSwarm":
+        from artap.algorithm_swarm import IndividualSwarm
+        return IndividualSwarm(list(v))
+    return Individual.from_dict(Individual(list(v)).to_dict())
+
+
+def check_classes(a, b, ca, cb):
+    """Equality is about coordinates, whichever classes carry the two points."""
+    from artap.archive import Archive
+    out = []
+    ia, ib = make_as(ca, a), make_as(cb, b)
+    exp = ref_eq(a, b)
+    tag = "%s/%s" % (ca, cb)
+    for x, y in ((ia, ib), (ib, ia)):
+        try:
+            got = bool(x == y)
+        except Exception as e:
+            out.append(("C20:classes:exception", "%s(%r) == %s(%r) raised %r" % (type(x).__name__, x.vector, type(y).__name__, y.vector, e)))
+            continue
+        if got != exp:
+            out.append(("C20:classes:eq:expected=%s" % exp, "%s(%r) == %s(%r) is %r" % (type(x).__name__, list(x.vector), type(y).__name__, list(y.vector), got)))
+    if list(a) == list(b) and hash(ia) != hash(ib):
+        out.append(("C20:classes:hash", "identical vectors %r hash differently as %s" % (a, tag)))
+    if (ib in [ia]) != exp or (ia in [ib]) != exp:
+        out.append(("C20:classes:in:expected=%s" % exp, "membership of %r in [%r] as %s" % (b, a, tag)))
+    if list(a) == list(b) and len({ia, ib}) != 1:
+        out.append(("C20:classes:set", "set of two carriers (%s) of the point %r has %d members" % (tag, a, len({ia, ib}))))
+    if exp:
+        ar = Archive()
+        ar._contents = [ia]
+        if not ar.remove(ib) or len(ar) != 0:
+            out.append(("C20:classes:Archive.remove", "Archive.remove of %r carried by %s from an archive holding it as %s failed" % (b, cb, ca)))
+    return out
+
+
 class ScriptExhausted(Exception):
     pass
 
@@ -284,6 +333,19 @@ def _shard(shard, col: Collector):
                     for key, msg in check_ids(a, b, how):
                         col.violation(key, "ids", msg, {"a": a, "b": b, "how": how})
         col.sample({"kind": "equal ids, different points", "a": [1.0, 0.0], "b": [1.0, -1.0], "how": "deepcopy"}, 1)
+    elif kind == "classes":
+        allv = list(itertools.product(LAT, repeat=2)) + [(v,) for v in LAT] + [(1.0 + 5e-11, 0.0), (1.0, 0.0 + 2e-10)]
+        for a in allv:
+            for b in allv:
+                if len(a) != len(b):
+                    continue
+                for ca in CLASSES:
+                    for cb in CLASSES:
+                        col.case()
+                        col.nontrivial(("classes", a, b, ca, cb))
+                        for key, msg in check_classes(a, b, ca, cb):
+                            col.violation(key, "classes", msg, {"a": a, "b": b, "ca": ca, "cb": cb})
+        col.sample({"kind": "one point carried by different individual classes", "classes": list(CLASSES)}, 1)
     elif kind == "moved":
         allv = list(itertools.product(LAT, repeat=2)) + [(v,) for v in LAT]
         for v1 in allv:
@@ -350,6 +412,8 @@ def replay(sub, case):
         conv = {"int": int, "float": float, "np.float64": np.float64, "np.int64": np.int64, "np.float32": np.float32}
         a, b = I([conv[case["ta"]](v) for v in case["base"]]), I([conv[case["tb"]](v) for v in case["base"]])
         return [] if (a == b and hash(a) == hash(b)) else [("C20:types", "point %r as %s / %s" % (case["base"], case["ta"], case["tb"]))]
+    if sub == "classes":
+        return check_classes(t(case["a"]), t(case["b"]), case["ca"], case["cb"])
     if sub == "ids":
         return check_ids(t(case["a"]), t(case["b"]), case["how"])
     if sub == "moved":
@@ -364,7 +428,7 @@ def run(tier, seed):
     for n in (1, 2, 3, 4):
         for first in LAT:
             shards.append(("eq", n, first))
-    shards += [("cont", 1), ("cont", 2), ("big",), ("moved",), ("types",), ("ids",)]
+    shards += [("cont", 1), ("cont", 2), ("big",), ("moved",), ("types",), ("ids",), ("classes",)]
     lat2 = LAT2
     firsts = [(a, b) for a in lat2 for b in lat2]
     for npop in (2, 3, 4):
